@@ -1,0 +1,26 @@
+//go:build verif
+
+// Machine-checked contracts for package consensus (comment-only; compiled only
+// under the build tag "verif").  Read by /verif/govc; see /verif/DESIGN.md §2.5.
+
+package consensus
+
+// ------------------------------------------------------------------ state.go
+
+//@ spec tax(fc types.V2FileContract) int = (types.u128(fc.RenterOutput.Value) + types.u128(fc.HostOutput.Value)) / 25
+
+//@ func (State).V2FileContractTax
+//@   prop C17 C01
+//@   panics-iff types.u128(fc.RenterOutput.Value) + types.u128(fc.HostOutput.Value) >= types.M128
+//@   ensures @tax types.u128(result) == tax(fc)
+
+// ---------------------------------------------------- validation.go (v2 file contracts)
+// The value/size clauses of the consensus acceptance predicates for v2
+// contracts (clauses F4, F5, R1 of DESIGN.md Appendix A); signature and
+// height clauses are separate.
+
+//@ spec CVContractValues(fc types.V2FileContract) bool = fc.Filesize <= fc.Capacity && fc.ExpirationHeight > fc.ProofHeight && !(types.u128(fc.RenterOutput.Value) == 0 && types.u128(fc.HostOutput.Value) == 0) && types.u128(fc.MissedHostValue) <= types.u128(fc.HostOutput.Value) && types.u128(fc.TotalCollateral) <= types.u128(fc.HostOutput.Value) && types.u128(fc.RenterOutput.Value) + types.u128(fc.HostOutput.Value) < types.M128
+
+//@ spec CVRevisionValues(cur types.V2FileContract, rev types.V2FileContract) bool = rev.Capacity >= cur.Capacity && rev.Filesize <= rev.Capacity && rev.RevisionNumber > cur.RevisionNumber && types.u128(rev.RenterOutput.Value) + types.u128(rev.HostOutput.Value) == types.u128(cur.RenterOutput.Value) + types.u128(cur.HostOutput.Value) && types.u128(rev.MissedHostValue) <= types.u128(cur.MissedHostValue) && types.u128(rev.MissedHostValue) <= types.u128(rev.HostOutput.Value) && rev.TotalCollateral == cur.TotalCollateral && rev.ExpirationHeight > rev.ProofHeight
+
+//@ spec CVRenewalValues(fc types.V2FileContract, r types.V2FileContractRenewal) bool = fc.RenterPublicKey == r.NewContract.RenterPublicKey && fc.HostPublicKey == r.NewContract.HostPublicKey && types.u128(r.FinalRenterOutput.Value) + types.u128(r.RenterRollover) + types.u128(r.FinalHostOutput.Value) + types.u128(r.HostRollover) == types.u128(fc.RenterOutput.Value) + types.u128(fc.HostOutput.Value) && types.u128(r.RenterRollover) + types.u128(r.HostRollover) <= types.u128(r.NewContract.RenterOutput.Value) + types.u128(r.NewContract.HostOutput.Value) + tax(r.NewContract) && CVContractValues(r.NewContract)
